@@ -146,6 +146,12 @@ class Query:
             d['case_split'] = len(s.cases)
         if s.meaning:
             d['meaning'] = s.meaning
+        if s.script:
+            # the negated claim as given to the solvers (last assertion before check-sat), truncated
+            tail = s.script.rsplit('(check-sat)', 1)[0].rstrip().split('\n')[-1]
+            d['negated_claim_smt'] = tail[:300]
+        if getattr(s, 'model', None):
+            d['model'] = {k: v for k, v in list(s.model.items())[:12]}
         return d
 
 
